@@ -13,7 +13,7 @@ def run(ctx, res):
     res.explanation = (
         "Clauses decided: R1 only blanks are consumed - both endpoints of every dedent range are min(_, first non-blank of "
         "the line), anchored at the line start, and the scanners' byte tables (C02.R4) hold; R2 the dedent amount is "
-        "saturating (never negative); R3 the backward line-break scan examines byte 0 before leaving on cursor == 0 (block on "
+        "saturating (never negative) and is measured on the first inner line only; R3 the backward line-break scan examines byte 0 before leaving on cursor == 0 (block on "
         "the first line of a file); R4 head/tail pair indices survive the splicing of child markers into the parent list "
         "(index-space rule: indices are produced relative to acc.len() and spliced children are rebased by a linear map that "
         "is checked symbolically).  Not decided: that every line is shifted by the same amount; correctness at nesting depth "
@@ -22,6 +22,7 @@ def run(ctx, res):
     deletion.block_ranges(ctx, res, "C12.R1")
     deletion.scanner_tables(ctx, res, "C12.R1t")
     saturating_amount(ctx, res, "C12.R2")
+    amount_from_first_line(ctx, res, "C12.R2b")
     deletion.byte0_examined(ctx, res, "C12.R3")
     pair_indices(ctx, res, "C12.R4")
 
@@ -56,6 +57,60 @@ def saturating_amount(ctx, res, rule):
         res.add(Finding(rule, fn, "amount:" + r, "the dedent amount wraps around when the first body line is indented less than the tag", loc=T.loc(init)))
     else:
         res.holds(rule, fn, "amount:" + r, "not a subtraction")
+
+
+def amount_from_first_line(ctx, res, rule):
+    """The dedent amount is (indentation of the first inner line) saturating-minus (indentation of the opening tag): it
+    must be computed from the line that starts right behind the seam, and from that line only."""
+    P = ctx.lib
+    b = P.fn("BlockIndentRemover::format")
+    fn = fshort(b)
+    lets = {s["pat"]["name"]: s for s in T.nodes(b["tree"], "let") if s["pat"]["p"] == "bind" and s.get("init") is not None}
+    amount = lets.get("indent_len")
+    if amount is None:
+        res.cannot(rule, fn, "amount", "dedent amount not found", T.loc(b["tree"]))
+        return
+    init = T.peel(amount["init"])
+    if not (init.get("k") == "mcall" and init["name"] in ("saturating_sub", "checked_sub")):
+        return   # judged by R2
+    first = T.peel_ref(init["recv"])
+    ofs = T.peel_ref(init["args"][0])
+
+    def resolve(n):
+        lid = T.local_of(n)
+        for s in lets.values():
+            if lid is not None and s["pat"]["id"] == lid:
+                return T.peel(s["init"])
+        return n
+    first_d, ofs_d = resolve(first), resolve(ofs)
+    ok = True
+    why = []
+    if first_d.get("k") == "call" and T.callee(first_d) in P.bodies:
+        args = [T.render(resolve(a)) for a in first_d["args"]]
+        extra = [a for a in args if a not in ("content", "(start_byte_pos + 1)", "bytes", "content.as_bytes()")]
+        if extra:
+            ok = False
+            why.append("the first-line indentation is computed from %s (it must depend on the first inner line only, i.e. on content and start_byte_pos + 1)" % extra)
+        cb = P.bodies[T.callee(first_d)]
+        if any(n.get("k") in ("loop", "for") for n in T.nodes(cb["tree"])):
+            ok = False
+            why.append("`%s` walks over several lines (loop): the amount is no longer the indentation of the *first* inner line" % fshort(cb))
+        cf = [n for n in T.nodes(cb["tree"], "call") if T.short_path(T.callee(n) or "").endswith("find_next_char_pos")]
+        if len(cf) != 1:
+            ok = False
+            why.append("`%s` does not measure exactly one line" % fshort(cb))
+    else:
+        ok = False
+        why.append("first-line indentation is `%s`, not a measurement of the line behind the seam" % T.render(first_d)[:80])
+    if T.render(ofs_d) != "match find_prev_line_break_pos(content, bytes, start_byte_pos, true) { Some(pos) => ((start_byte_pos - pos) - 1), None => 0 }":
+        tr = T.render(ofs_d)
+        if not ("find_prev_line_break_pos(content, bytes, start_byte_pos, true)" in tr and "start_byte_pos - pos" in tr):
+            ok = False
+            why.append("the tag indentation is `%s`, not the distance from the seam back to the previous line break" % tr[:100])
+    if ok:
+        res.holds(rule, fn, "amount-from-first-line", "indent(first inner line) saturating_sub indent(tag)")
+    else:
+        res.add(Finding(rule, fn, "amount-from-first-line", "; ".join(why), loc=T.loc(amount)))
 
 
 def pair_indices(ctx, res, rule):
